@@ -211,6 +211,32 @@ def rule_guards(program, ctx):
                                  text=f"def check_auth_event(...) :: {text}", path=cfg.describe_path(path)[-6:]))
         else:
             ctx.ok(rid, fn, f"normal exit only with {text}")
+    # `not (age >= 600)` is `age < 600` only for a real number: created_at comes from the client's JSON, where rapidjson accepts NaN, and NaN makes
+    # every comparison false.  The window is established either by comparisons that *hold* (true edges), or by refusals (false edges) of a value
+    # that is known to be an int.
+    def strict(p):
+        return lambda e, pol: pol and p(e, pol)
+
+    def typed(expr, pol):
+        if isinstance(expr, ast.Call) and call_name(expr) == "isinstance" and len(expr.args) == 2 and dotted(expr.args[0]) == f"{ev}.created_at" and dotted(expr.args[1]) == "int":
+            return pol
+        if isinstance(expr, ast.Compare) and len(expr.ops) == 1 and isinstance(expr.left, ast.Call) and call_name(expr.left) == "type" and expr.left.args \
+                and dotted(expr.left.args[0]) == f"{ev}.created_at" and dotted(expr.comparators[0]) == "int":
+            return (isinstance(expr.ops[0], (ast.Is, ast.Eq)) and pol) or (isinstance(expr.ops[0], (ast.IsNot, ast.NotEq)) and not pol)
+        if isinstance(expr, ast.Compare) and len(expr.ops) == 1 and is_age(expr.left) and is_age(expr.comparators[0]) and ast.unparse(expr.left) == ast.unparse(expr.comparators[0]):
+            # x != x  is the NaN test
+            return (isinstance(expr.ops[0], ast.Eq) and pol) or (isinstance(expr.ops[0], ast.NotEq) and not pol)
+        return False
+
+    t_path = must_pass(cfg, test_edges(cfg, typed), [cfg.exit])
+    for text, pred in facts[2:]:
+        if must_pass(cfg, test_edges(cfg, strict(pred)), [cfg.exit]) and t_path:
+            ctx.bad(finding_func(P, rid, fn, f"`{text}` is established only by comparisons that came out false, for a created_at that is not known to be an int: a NaN timestamp "
+                                 "(valid in the JSON rapidjson parses, and signable) fails every comparison and is accepted as fresh whatever the time",
+                                 text="def check_auth_event(...) :: NaN created_at", path=cfg.describe_path(t_path)[-6:]))
+            break
+    else:
+        ctx.ok(rid, fn, "the freshness window cannot be passed by NaN (typed created_at or positive comparisons)")
     # flags
     flags = {}
     for s in walk_no_nested(fn):
@@ -545,13 +571,14 @@ AUTH = "nostr_relay/auth.py"
 WEB = "nostr_relay/web.py"
 
 MUTANTS = [
+    M("c15-window-by-refusal", "nostr_relay/auth.py", "        if not since < 600:", "        if since >= 600:", "C15.guards"),
     M("c15-relay-flag-any-tag", AUTH, "            if tag[0] == \"relay\":", "            if tag[0] != \"relay\":", "C15.guards"),
     M("c15-urls-str-default", AUTH, "        valid_urls = options.get(\"relay_urls\", [\"ws://localhost:6969\"])\n        if isinstance(valid_urls, str):\n            # a single url: membership must not degrade to a substring test\n            valid_urls = [valid_urls]\n",
       "        valid_urls = options.get(\"relay_urls\", \"ws://localhost:6969\")\n", "C15.urls"),
     M("c15-no-verify", AUTH, "        if not auth_event.verify():\n            raise AuthenticationError(\"invalid: Bad signature\")\n", "", "C15.guards", canary=True),
     M("c15-no-kind", AUTH, "        if auth_event.kind != 22242:\n            raise AuthenticationError(\"invalid: Wrong kind. Must be 22242.\")\n", "", "C15.guards"),
-    M("c15-no-too-new", AUTH, "        elif since <= -600:\n            raise AuthenticationError(\"invalid: Too new\")\n", "", "C15.guards"),
-    M("c15-wide-window", AUTH, "        if since >= 600:", "        if since >= 6000:", "C15.guards"),
+    M("c15-no-too-new", AUTH, "        elif not since > -600:\n            raise AuthenticationError(\"invalid: Too new\")\n", "", "C15.guards"),
+    M("c15-wide-window", AUTH, "        if not since < 600:", "        if not since < 6000:", "C15.guards"),
     M("c15-relay-any", AUTH, "                if tag[1] not in self.valid_urls:\n                    raise AuthenticationError(f\"invalid: Wrong domain: {tag[1]}\")\n", "", "C15.guards"),
     M("c15-challenge-const", AUTH, "                if tag[1] != challenge:", "                if tag[1] != \"\":", "C15.guards"),
     M("c15-flags-or", AUTH, "        if not (found_relay and found_challenge):", "        if not (found_relay or found_challenge):", "C15.guards"),
@@ -564,8 +591,8 @@ MUTANTS = [
 ]
 
 EQUIVS = [
-    E("c15-eq-abs-window", AUTH, "        if since >= 600:\n            raise AuthenticationError(\"invalid: Too old\")\n        elif since <= -600:\n            raise AuthenticationError(\"invalid: Too new\")\n",
-      "        if abs(since) >= 600:\n            raise AuthenticationError(\"invalid: Too old or too new\")\n"),
+    E("c15-eq-abs-window", AUTH, "        if not since < 600:\n            raise AuthenticationError(\"invalid: Too old\")\n        elif not since > -600:\n            raise AuthenticationError(\"invalid: Too new\")\n",
+      "        if not abs(since) < 600:\n            raise AuthenticationError(\"invalid: Too old or too new\")\n"),
     E("c15-eq-kind-positive", AUTH, "        if auth_event.kind != 22242:\n            raise AuthenticationError(\"invalid: Wrong kind. Must be 22242.\")\n",
       "        if not auth_event.kind == 22242:\n            raise AuthenticationError(\"invalid: Wrong kind. Must be 22242.\")\n"),
 ]
